@@ -311,7 +311,14 @@ def peel(t):
 # ---------------------------------------------------------------------------
 # T3: USE_TABLE plumbing
 
+def is_arg_n(t, n):
+    while isinstance(t, tuple) and t and t[0] in ("cast", "ref", "deref"):
+        t = t[1]
+    return isinstance(t, tuple) and t and t[0] == "arg" and t[1] == n
+
+
 def check_param_plumbing(chk, F, rule="T3.plumbing"):
+    plumbing = lambda nm, cb: str(cb.get("vis") or "").startswith("Restricted") and not cb.get("impl_trait") and "::default_" not in nm
     chk.rule(rule, floor=14, doc="*_param methods: table branch only under the const flag, own code + impl endianness, same default_* fallback with the same arguments")
     specs = []
     for code, tr_r, tr_w, tabs in (("gamma", "GammaReadParam", "GammaWriteParam", "gamma_tables"),
@@ -323,108 +330,96 @@ def check_param_plumbing(chk, F, rule="T3.plumbing"):
             flag = {"gamma": "USE_TABLE", "delta": "USE_DELTA_TABLE", "zeta": "USE_TABLE"}[code]
             specs.append((code, e, "read", F.one(name=rn, trait_is=r"codes::%s::%s<%s>" % (code, tr_r, ety)), "codes::%s::read_table_%s" % (tabs, e), flag))
             specs.append((code, e, "write", F.one(name=wn, trait_is=r"codes::%s::%s<%s>" % (code, tr_w, ety)), "codes::%s::write_table_%s" % (tabs, e), flag))
+    def api_events(p):
+        """the calls of public crate API on a path (stream primitives, table functions, codes): what the method does, however
+        its private helpers, closures and combinators are arranged"""
+        out = []
+        for ev in p.calls():
+            nm = ev[1]
+            if not nm.startswith(("traits::", "codes::")):
+                continue
+            bl = F.by_path.get(nm, [])
+            if len(bl) == 1 and str(bl[0].get("vis") or "").startswith("Restricted") and not bl[0].get("impl_trait"):
+                continue            # a private helper: walked in context, its own events follow
+            out.append(ev)
+        return out
+
+    def sig(p, evs):
+        return (tuple((ev[1], tuple(str(mir.expand(a, p)) for a in ev[8]), tuple(ev[7])) for ev in evs), str(mir.expand(p.ret, p)), p.end[0])
+
     for code, e, kind, b, tabfn, flag in specs:
         probs = []
-        fall = {}
-        n_tab = 0
-        # module-private plumbing helpers are walked in context; the default_* implementations are the fallbacks the rule looks for
-        plumbing = lambda nm, cb: str(cb.get("vis") or "").startswith("Restricted") and not cb.get("impl_trait") and "::default_" not in nm
-        for p in mir.walk_inline(b, F, pred=plumbing):
-            if p.end[0] != "return":
-                continue
-            fl = [c for c in p.constraints if c[0] == ("cparam", flag)]
-            flag_on = bool(fl) and ((fl[0][1] == "==" and fl[0][2] == 1) or (fl[0][1] == "notin" and fl[0][2] == (0,)))
-            tcalls = [ev for ev in p.calls() if "_tables::" in ev[1]]
-            dcalls = [ev for ev in p.calls() if "::default_" in ev[1]]
-            if tcalls and not flag_on:
-                probs.append("table function called with the flag off")
-            for ev in tcalls:
-                if ev[1] != tabfn:
-                    probs.append("calls %s, expected %s" % (ev[1], tabfn))
-                if not mir.mentions(ev[2][0], lambda t: t[0] == "arg" and t[1] == 1):
-                    probs.append("table function not applied to self")
-                if kind == "write" and not (len(ev[2]) > 1 and ev[2][1] == ("arg", 2, mir.argname(2, b["locals"][2]["name"]))):
-                    probs.append("table writer gets %s instead of the value" % mir.fmt(ev[2][1]))
-            if flag_on and not tcalls:
+        # flag off: the non-table implementation, fully walked (private helpers in context)
+        off = {}
+        for p in mir.walk_inline(b, F, gen_map={flag: "false"}):
+            evs = api_events(p)
+            if any("_tables::" in ev[1] for ev in evs):
+                probs.append("a table function is called with the flag off")
+            off[sig(p, evs)] = True
+        n_tab = n_hit = 0
+        for p in mir.walk_inline(b, F, gen_map={flag: "true"}):
+            evs = api_events(p)
+            tcalls = [ev for ev in evs if "_tables::" in ev[1]]
+            if not tcalls:
                 probs.append("flag on but no table call on a path")
-            if tcalls:
-                n_tab += 1
-            if dcalls:
-                if len(dcalls) != 1:
-                    probs.append("several default_* calls")
-                sig = (dcalls[0][1], tuple(str(mir.expand(a, p)) for a in dcalls[0][2]), dcalls[0][7])
-                fall.setdefault(flag_on, set()).add(sig)
-                if p.ret != dcalls[0][3]:
-                    probs.append("fallback result not returned unchanged")
-                fam = cc.FAMILY.get(None)
-                if ("default_%s_%s" % (kind, code)) not in dcalls[0][1]:
-                    probs.append("fallback is %s" % dcalls[0][1])
-                if code == "zeta":
-                    kk = cc.const_int(dcalls[0][2][-1])
-                    if kk != 3:
-                        probs.append("zeta3 fallback uses k=%s" % mir.fmt(dcalls[0][2][-1]))
-                if code == "delta" and "USE_GAMMA_TABLE" not in dcalls[0][7]:
-                    probs.append("delta fallback does not pass USE_GAMMA_TABLE through (%s)" % (dcalls[0][7],))
-            else:
-                # hit path: returns the table's value / length
-                if not tcalls:
-                    probs.append("path with neither table nor default call")
-                    continue
-                r = p.ret
-                res = tcalls[0][3]
-                okr = isinstance(r, tuple) and (r[0] == "agg" and r[3] == "Ok" and mir.mentions(r[4][0], lambda t: t == res)
-                                                or r == ("from_residual", ("residual", res)))
-                if kind == "read":
-                    # Some((res, _)) -> Ok(res): first tuple component
-                    want = ("field", ("field", ("variant", res, "Some"), "0"), "0")
-                    okr = okr and (r[4][0] in (want, ("field", ("okval", res), "0")))
-                if not okr:
-                    probs.append("table hit returns %s" % mir.fmt(r))
-        if fall.get(True) != fall.get(False) or not fall.get(True):
-            probs.append("fallback with the flag on %s differs from the flag-off path %s" % (fall.get(True), fall.get(False)))
-        if n_tab < 1:
-            probs.append("no table path")
-        chk.expect(rule, "%s.%s.%s" % (code, kind, e), not probs, "%s: %s" % (b["path"], "; ".join(sorted(set(probs)))),
-                   sample={"fn": b["path"], "table_fn": tabfn})
-    # length functions
-    for code, fn, flag, lenconst in (("gamma", "codes::gamma::len_gamma_param", "USE_TABLE", "codes::gamma_tables::LEN"),
-                                     ("delta", "codes::delta::len_delta_param", "USE_DELTA_TABLE", "codes::delta_tables::LEN"),
-                                     ("zeta", "codes::zeta::len_zeta_param", "USE_TABLE", "codes::zeta_tables::LEN")):
-        b = F.body(fn)
-        probs = []
-        tab_paths = 0
-        formula = {}
-        for p in mir.walk(b):
-            if p.end[0] not in ("return",):
                 continue
-            fl = [c for c in p.constraints if c[0] == ("cparam", flag)]
-            flag_on = bool(fl) and ((fl[0][1] == "==" and fl[0][2] == 1) or (fl[0][1] == "notin" and fl[0][2] == (0,)))
-            gets = [ev for ev in p.calls() if ev[1].endswith("::get")]
-            for g in gets:
-                if not flag_on:
-                    probs.append("LEN consulted with the flag off")
-                if const_origin(peel(g[2][0])) != lenconst:
-                    probs.append("consults %s" % mir.fmt(g[2][0]))
-                if not mir.mentions(g[2][1], lambda t: t[0] == "arg" and t[1] == 1):
-                    probs.append("LEN indexed by %s, not by the value" % mir.fmt(g[2][1]))
-            if code == "zeta" and gets:
-                kc = [c for c in p.constraints if mir.mentions(c[0], lambda t: t[0] == "arg" and t[1] == 2)]
-                okk = any((c[0][0] == "binop" and c[0][1] == "Eq" and "codes::zeta_tables::K" in (const_origin(c[0][2]), const_origin(c[0][3]))) or
-                          (c[0] == ("arg", 2, "arg2") and c[1] == "==" and c[2] == 3) for c in kc)
-                if not okk:
-                    probs.append("zeta LEN table consulted without checking k == zeta_tables::K")
-            r = p.ret
-            rs = cc.strip_casts(r)
-            if gets and isinstance(rs, tuple) and rs[0] == "deref" and (
-                    (rs[1][0] == "field" and rs[1][1][0] == "variant" and rs[1][1][1] == gets[-1][3]) or rs[1] == ("okval", gets[-1][3])):
-                tab_paths += 1
-            else:
-                formula.setdefault(flag_on, set()).add(str(mir.expand(r, p)))
-        if tab_paths < 1:
-            probs.append("no path returns a LEN entry")
-        if formula.get(True) != formula.get(False):
-            probs.append("formula result differs between flag on/off: %s vs %s" % (formula.get(True), formula.get(False)))
-        chk.expect(rule, code + ".len", not probs, "%s: %s" % (fn, "; ".join(sorted(set(probs)))), sample={"fn": fn})
+            n_tab += 1
+            ev = tcalls[0]
+            if len(tcalls) != 1 or evs.index(ev) != 0:
+                probs.append("the table function is not the first and only table call on a path")
+                continue
+            if ev[1] != tabfn:
+                probs.append("calls %s, expected %s" % (ev[1], tabfn))
+            if not mir.mentions(ev[2][0], lambda t: t[0] == "arg" and t[1] == 1):
+                probs.append("table function not applied to self")
+            if kind == "write" and not (len(ev[2]) > 1 and is_arg_n(ev[2][1], 2)):
+                probs.append("table writer gets %s instead of the value" % mir.fmt(ev[2][1]))
+            rest = [x for x in evs if x is not ev]
+            res = ev[3]
+            if not rest and p.end[0] == "return" and sig(p, rest) not in off:
+                # hit (or, for the writer, a propagated error of the table write): the table's result is the result
+                r = p.ret
+                if kind == "read":
+                    okr = isinstance(r, tuple) and r[0] == "agg" and r[3] == "Ok" and r[4] and \
+                        mir.norm_ok(r[4][0]) in (("field", ("okval", res), "0"),)
+                else:
+                    okr = (isinstance(r, tuple) and r[0] == "agg" and r[3] == "Ok" and r[4] and mir.norm_ok(r[4][0]) in (("okval", ("okval", res)), ("okval", ("try", res)))) \
+                        or r == ("from_residual", ("residual", res)) or (isinstance(r, tuple) and r[0] == "agg" and r[3] == "Err" and mir.mentions(r, lambda t: t == res))
+                    if isinstance(r, tuple) and r[0] == "agg" and r[3] == "Ok" and not okr:
+                        inner = mir.norm_ok(r[4][0]) if r[4] else None
+                        okr = isinstance(inner, tuple) and inner[0] == "okval" and mir.mentions(inner, lambda t: t == res)
+                if okr:
+                    n_hit += 1
+                else:
+                    probs.append("table hit returns %s" % mir.fmt(p.ret)[:80])
+                continue
+            # miss: what follows is exactly one of the flag-off behaviours
+            if sig(p, rest) not in off:
+                probs.append("after a table miss the method does not continue like the non-table implementation: %s" % [x[1].split("::")[-1] for x in rest][:6])
+        if not off:
+            probs.append("no non-table path")
+        if n_tab < 1 or n_hit < 1:
+            probs.append("no table path" if n_tab < 1 else "no table-hit path returning the table's result")
+        if code == "zeta":
+            # the non-table implementation of zeta3 is zeta with k = 3
+            ks = set()
+            for (evs_, ret_, end_) in off:
+                for (nm, args_, ga) in evs_:
+                    pass
+            for p in mir.walk_inline(b, F, gen_map={flag: "false"}, pred=plumbing):
+                for ev in p.calls():
+                    bl = F.by_path.get(ev[1], [])
+                    if len(bl) == 1 and str(bl[0].get("vis") or "").startswith("Restricted") and "zeta" in ev[1] and ev[2]:
+                        kk = cc.const_int(ev[2][-1])
+                        if kk is not None:
+                            ks.add(kk)
+            if ks and ks != {3}:
+                probs.append("zeta3 fallback uses k=%s" % sorted(ks))
+        chk.expect(rule, "%s.%s.%s" % (code, kind, e), not probs, "%s: %s" % (b["path"], "; ".join(sorted(set(probs)))),
+                   sample={"fn": b["path"], "table_fn": tabfn, "non_table_paths": len(off)})
+    # length functions: decided on the whole domain by interpretation (table option on = off), whatever the shape of the lookup
+    import rules_ivl
+    rules_ivl.run_len_tables(chk, F, F.fs, "quick", rule)
 
 
 def check_default_params(chk, F, rule="K3.defaults"):
